@@ -95,18 +95,19 @@ Definition dispatch (fn : Z) (args : list Z) : list Z :=
   | 10 (* fmt2 *), [us] => 0 :: fmt2 us
   | 11 (* session *), k :: code => session_out initial k code
   | 12 (* normalize_locale *), name => 0 :: normalize_locale name
-  (* an operand is 13 integers: the 12 of Model/DispatchC06.v — year month day hour minute second microsecond offset has_tz tzname tzobj
-     is_datetime — and the offset of the same wall time read with fold 0; [3] = the UTC instant of an operand is outside 0001..9999 *)
-  | 13 (* diff_comps *), [rs; y1;m1;d1;h1;i1;s1;u1;o1;t1;n1;b1;k1;f1; y2;m2;d2;h2;i2;s2;u2;o2;t2;n2;b2;k2;f2] =>
+  (* an operand is the 12 integers of Model/DispatchC06.v — year month day hour minute second microsecond offset has_tz tzname tzobj
+     is_datetime; the offset is the one the operand's fold selects (Interval.__init__ passes fold= to the natives it hands to precise_diff);
+     [3] = the UTC instant of an operand is outside 0001..9999 *)
+  | 13 (* diff_comps *), [rs; y1;m1;d1;h1;i1;s1;u1;o1;t1;n1;b1;k1; y2;m2;d2;h2;i2;s2;u2;o2;t2;n2;b2;k2] =>
       let a := mkpdt y1 m1 d1 h1 i1 s1 u1 o1 (zb t1) n1 b1 (zb k1) in let b := mkpdt y2 m2 d2 h2 i2 s2 u2 o2 (zb t2) n2 b2 (zb k2) in
-      if dh_in_domain a b f1 f2 then
-        match diff_comps (zb rs) a b f1 f2 with
+      if dh_in_domain a b then
+        match diff_comps (zb rs) a b with
         | Ok (c, inv) => [0; c_years c; c_months c; c_weeks c; c_rdays c; c_hours c; c_minutes c; c_rsecs c; Z.b2z inv]
         | Raise e => [1; exn_code e]
         end
       else [3]
-  | 14 (* dfh *), [loc; rs; absolute; y1;m1;d1;h1;i1;s1;u1;o1;t1;n1;b1;k1;f1; y2;m2;d2;h2;i2;s2;u2;o2;t2;n2;b2;k2;f2] =>
+  | 14 (* dfh *), [loc; rs; absolute; y1;m1;d1;h1;i1;s1;u1;o1;t1;n1;b1;k1; y2;m2;d2;h2;i2;s2;u2;o2;t2;n2;b2;k2] =>
       let a := mkpdt y1 m1 d1 h1 i1 s1 u1 o1 (zb t1) n1 b1 (zb k1) in let b := mkpdt y2 m2 d2 h2 i2 s2 u2 o2 (zb t2) n2 b2 (zb k2) in
-      if dh_in_domain a b f1 f2 then with_locale loc (fun L => of_res (diff_for_humans L (zb rs) a b f1 f2 (zb absolute))) else [3]
+      if dh_in_domain a b then with_locale loc (fun L => of_res (diff_for_humans L (zb rs) a b (zb absolute))) else [3]
   | _, _ => [9]
   end.
